@@ -49,6 +49,7 @@ static int refuse_now(size_t size) {
     size_t l = strlen(sched_bits);
     if ((size_t)idx < l && sched_bits[idx] == '0') refuse = 1;
   }
+  if (size > ((size_t)1 << 40)) refuse = 1;   /* no allocator can serve this (and size + header would wrap): refused, like a real malloc */
   if (refuse) n_refused++;
   return refuse;
 }
